@@ -370,5 +370,5 @@ def check_log(case):
 def subchecks(tier):
     return [
         Sub(name="machine", kind="machine", check=check_log, machine=make_machine(), steps=25, budget_s={"quick": 240.0, "thorough": 2400.0},
-            examples={"quick": 60, "thorough": 160}, shards={"quick": 8, "thorough": 16}),
+            examples={"quick": 45, "thorough": 160}, shards={"quick": 8, "thorough": 16}),
     ]
